@@ -15,6 +15,15 @@ def parseEntry (t : String) : Option Entry :=
 
 def parseEntries (ts : List String) : Option (List Entry) := ts.mapM parseEntry
 
+/-- verdict of one `CheckProposal` call given as `<n> <col> <entry>...` -/
+def verdict (ws : List String) : Option String :=
+  match ws with
+  | n :: _col :: es =>
+    match n.toNat?, _col.toNat?, parseEntries es with
+    | some n, some _, some es => some (if checkProposal (List.range n) es == .accept then "accept" else "reject")
+    | _, _, _ => none
+  | _ => none
+
 def step (_ : Unit) (line : String) : Unit × String :=
   match words line with
   | ["thr", k, n] =>
@@ -35,6 +44,17 @@ def step (_ : Unit) (line : String) : Unit × String :=
     | some n, some es =>
       ((), if checkProposal (List.range n) es == .accept then "accept" else "reject")
     | _, _ => ((), "bad-op")
+  | "cpi" :: p :: rest =>
+    -- two calls on one instance, the second running while the first is held between two signature entries:
+    -- each verdict is the verdict of that call alone (`checkProposal` is a function of its arguments)
+    match p.toNat? with
+    | some p =>
+      if p == 0 || !rest.contains "/" then ((), "bad-op") else
+      match verdict (rest.takeWhile (· != "/")), verdict ((rest.dropWhile (· != "/")).drop 1) with
+      | some a, some b => ((), a ++ " " ++ b)
+      | _, _ => ((), "bad-op")
+    | none => ((), "bad-op")
+  | ["conc", _, _, _, _] => ((), "-")
   | "cv" :: n :: es =>
     match n.toNat?, parseEntries es with
     | some n, some es => ((), if checkVote (List.range n) es then "accept" else "reject")
